@@ -603,6 +603,15 @@ func (m *Manager) NewScopedKeyManager(ns walletdb.ReadWriteBucket,
 		if err != nil {
 			return nil, err
 		}
+
+		// The default account now exists within the new scope, so
+		// record it as the last account. Otherwise, the next account
+		// created in this scope would be assigned number 0 again and
+		// overwrite it.
+		err = putLastAccount(ns, &scope, DefaultAccountNum)
+		if err != nil {
+			return nil, err
+		}
 	}
 
 	// Finally, we'll register this new scoped manager with the root
